@@ -130,6 +130,9 @@ func (s *Scenario) companion(rel string) *sts.Partial {
 func (s *Scenario) observeSettled() {
 	w := s.w
 	s.observe()
+	if s.p.Prop == "C09" {
+		w.markRejected()
+	}
 	files := w.StageFiles()
 	var names []string
 	for f := range files {
